@@ -33,9 +33,9 @@ def run(ctx):
         traces = [ctx.replay]
     else:
         t1 = os.path.join(ctx.work, "small.ndjson")
-        lib.run_driver(exe, ["small", t1, 90 if q else 500, 0 if q else 1], env=env, timeout=1200)
+        lib.run_driver(exe, ["small", t1, 90 if q else 150, 0 if q else 1], env=env, timeout=1200)
         t2 = os.path.join(ctx.work, "db.ndjson")
-        lib.run_driver(exe, ["db", t2, 70 if q else 400], env=env, timeout=1200)
+        lib.run_driver(exe, ["db", t2, 70 if q else 250], env=env, timeout=1200)
         traces = [t1, t2]
     # 3. validate (chunks in parallel)
     chunks = []
